@@ -75,6 +75,47 @@ pub enum Eff {
     FailCall,
 }
 
+/// a "nearly trivial" shape put around the effectful core of a hole: the value is unchanged and
+/// nothing else is observable, but the operand is no longer a plain call / variable — what a
+/// shallow "is this operand trivial?" test in a pass may wrongly look through
+#[derive(Clone, Copy, PartialEq, Debug)]
+pub enum Wrap {
+    None,
+    /// `mk_wT(core).v`: field of a struct returned by a call
+    FieldCall,
+    /// `WT { v: core }.v`: field of a struct literal
+    FieldLit,
+    /// `(core, 0).0`
+    Proj,
+    /// `match OT::ST(core) { OT::ST(q) => q, OT::NT => dflt }`
+    Payload,
+    /// `-(-core)` / `!(!core)`
+    Unary,
+    /// `(true && core)` / `(false || core)`
+    Logic,
+    /// `array_get(arr1_T(core), 0)`
+    ArrGet,
+    /// `vec_get(vec1_T(core), 0)`
+    VecGet,
+    /// `int32_to_string(core)` for a string operand
+    ToStr,
+    /// `idc_T(core)`: call of a closure variable
+    Closure,
+}
+
+pub const WRAPS: [Wrap; 10] = [
+    Wrap::FieldCall,
+    Wrap::FieldLit,
+    Wrap::Proj,
+    Wrap::Payload,
+    Wrap::Unary,
+    Wrap::Logic,
+    Wrap::ArrGet,
+    Wrap::VecGet,
+    Wrap::ToStr,
+    Wrap::Closure,
+];
+
 #[derive(Clone, Debug, PartialEq)]
 enum Ev {
     Print(String),
@@ -103,6 +144,10 @@ pub struct G<'a> {
     pub positions: Vec<String>,
     pos_stack: Vec<String>,
     pub forms_used: Vec<&'static str>,
+    /// shape put around every hole it applies to
+    pub wrap: Wrap,
+    /// how many holes were wrapped
+    pub wrapped: usize,
 }
 
 fn dflt(t: Ty) -> &'static str {
@@ -155,6 +200,8 @@ impl<'a> G<'a> {
             positions: vec![],
             pos_stack: vec![],
             forms_used: vec![],
+            wrap: Wrap::None,
+            wrapped: 0,
         }
     }
     fn fresh(&mut self, p: &str) -> String {
@@ -184,8 +231,65 @@ impl<'a> G<'a> {
         }
     }
 
-    /// an atomic hole: the place where the plan puts an effect
+    /// an atomic hole, inside the wrapper shape of this case (if it applies to the type)
     fn atom(&mut self, t: Ty, want: Option<V>, pos: &str) -> (String, V) {
+        let w = self.wrap;
+        let i = self.next;
+        let s = sfx(t);
+        let data = matches!(t, Ty::I | Ty::B | Ty::S);
+        if w == Wrap::ToStr && t == Ty::S && want.is_none() {
+            // the core is an int32 hole; the operand is its decimal rendering
+            let (core, v) = self.atom_core(Ty::I, None, pos, w);
+            self.wrapped += 1;
+            return (format!("int32_to_string({})", core), V::S(format!("{}", Self::ii(&v))));
+        }
+        let applies = match w {
+            Wrap::None | Wrap::ToStr => false,
+            Wrap::FieldCall | Wrap::FieldLit | Wrap::Payload | Wrap::ArrGet | Wrap::VecGet => data,
+            Wrap::Proj | Wrap::Closure => true,
+            Wrap::Unary => matches!(t, Ty::I | Ty::B),
+            Wrap::Logic => t == Ty::B,
+        };
+        let (core, v) = self.atom_core(t, want, pos, if applies { w } else { Wrap::None });
+        if !applies {
+            return (core, v);
+        }
+        self.wrapped += 1;
+        let txt = match w {
+            Wrap::FieldCall => format!("mk_w{}({}).v", s, core),
+            Wrap::FieldLit => format!("W{} {{ v: {} }}.v", s, core),
+            Wrap::Proj => format!("({}, 0).0", core),
+            Wrap::Payload => format!(
+                "(match O{s}::S{s}({core}) {{ O{s}::S{s}(pq{i}) => pq{i}, O{s}::N{s} => {d}, }})",
+                s = s,
+                core = core,
+                i = i,
+                d = dflt(t)
+            ),
+            Wrap::Unary => {
+                if t == Ty::I {
+                    format!("(-(-{}))", core)
+                } else {
+                    format!("(!(!{}))", core)
+                }
+            }
+            Wrap::Logic => {
+                if i % 2 == 0 {
+                    format!("(true && {})", core)
+                } else {
+                    format!("(false || {})", core)
+                }
+            }
+            Wrap::ArrGet => format!("array_get(arr1_{}({}), 0)", s, core),
+            Wrap::VecGet => format!("vec_get(vec1_{}({}), 0)", s, core),
+            Wrap::Closure => format!("idc_{}({})", s, core),
+            Wrap::None | Wrap::ToStr => core,
+        };
+        (txt, v)
+    }
+
+    /// the place where the plan puts an effect
+    fn atom_core(&mut self, t: Ty, want: Option<V>, pos: &str, w: Wrap) -> (String, V) {
         let i = self.next;
         self.next += 1;
         let v = match want {
@@ -194,7 +298,7 @@ impl<'a> G<'a> {
         };
         let eff = *self.plan.get(i).unwrap_or(&self.base);
         let path = format!("{}{}{}", self.pos_stack.join("/"), if self.pos_stack.is_empty() { "" } else { "/" }, pos);
-        self.positions.push(format!("{}:{:?}", path, eff));
+        self.positions.push(format!("{}@{:?}:{:?}", path, w, eff));
         let l = format!("h{}", i);
         let vt = lit(&v);
         let s = sfx(t);
@@ -733,6 +837,23 @@ fn f2(a: int32, b: int32) -> int32 { a - b }
 fn f3(a: int32, b: int32, c: int32) -> int32 { a * 100 + b * 10 + c }
 "#;
 
+const PRELUDE_WRAP: &str = r#"struct Wi { v: int32 }
+struct Wb { v: bool }
+struct Ws { v: string }
+enum Oi { Si(int32), Ni }
+enum Ob { Sb(bool), Nb }
+enum Os { Ss(string), Ns }
+fn mk_wi(v: int32) -> Wi { Wi { v: v } }
+fn mk_wb(v: bool) -> Wb { Wb { v: v } }
+fn mk_ws(v: string) -> Ws { Ws { v: v } }
+fn arr1_i(v: int32) -> [int32; 1] { [v] }
+fn arr1_b(v: bool) -> [bool; 1] { [v] }
+fn arr1_s(v: string) -> [string; 1] { [v] }
+fn vec1_i(v: int32) -> Vec[int32] { let a: Vec[int32] = vec_new(); vec_push(a, v) }
+fn vec1_b(v: bool) -> Vec[bool] { let a: Vec[bool] = vec_new(); vec_push(a, v) }
+fn vec1_s(v: string) -> Vec[string] { let a: Vec[string] = vec_new(); vec_push(a, v) }
+"#;
+
 pub struct Case {
     pub src: String,
     /// expected (stdout, status) under the eager and the lazy schedule
@@ -740,6 +861,7 @@ pub struct Case {
     pub positions: Vec<String>,
     pub forms: Vec<&'static str>,
     pub holes: usize,
+    pub wrapped: usize,
 }
 
 /// placement of the root form in the function
@@ -750,8 +872,9 @@ pub enum Place {
     Discarded,
 }
 
-pub fn gen_case(rng: &mut Rng, f: usize, depth: usize, plan: Vec<Eff>, base: Eff, place: Place) -> Case {
+pub fn gen_case(rng: &mut Rng, f: usize, depth: usize, plan: Vec<Eff>, base: Eff, place: Place, wrap: Wrap) -> Case {
     let mut g = G::new(rng, plan, base);
+    g.wrap = wrap;
     let (e, v) = g.form(f, depth);
     let t = form_ty(f);
     let show = |x: &str| match t {
@@ -772,8 +895,15 @@ pub fn gen_case(rng: &mut Rng, f: usize, depth: usize, plan: Vec<Eff>, base: Eff
         Ty::S => "string",
         Ty::U => "unit",
     };
-    let decls = "let ai = [1, 2]; let ab = [true, false]; let asr = [\"p\", \"q\"]; ";
+    let decls = if wrap == Wrap::Closure {
+        "let ai = [1, 2]; let ab = [true, false]; let asr = [\"p\", \"q\"]; let idc_i = |q: int32| q; let idc_b = |q: bool| q; let idc_s = |q: string| q; let idc_u = |q: unit| q; "
+    } else {
+        "let ai = [1, 2]; let ab = [true, false]; let asr = [\"p\", \"q\"]; "
+    };
     let mut src = String::from(PRELUDE);
+    if wrap != Wrap::None {
+        src.push_str(PRELUDE_WRAP);
+    }
     let tail_ref = "string_println(\"ref:\" + int32_to_string(ref_get(r)))";
     match place {
         Place::LetThenShow => {
@@ -814,7 +944,7 @@ pub fn gen_case(rng: &mut Rng, f: usize, depth: usize, plan: Vec<Eff>, base: Eff
         }
         expect[s] = (out, status);
     }
-    Case { src, expect, positions: g.positions.clone(), forms: g.forms_used.clone(), holes: g.next }
+    Case { src, expect, positions: g.positions.clone(), forms: g.forms_used.clone(), holes: g.next, wrapped: g.wrapped }
 }
 
 fn eff_tag(e: Eff) -> &'static str {
@@ -935,6 +1065,7 @@ pub fn main(args: &util::Args) {
             effects: true,
             wildcard_arrays: false,
             nested_patterns: i % 4 == 1,
+            logic_rhs_shapes: i % 5 == 2,
             ..Default::default()
         };
         let (src, _) = crate::progen::gen_program(&mut rng, cfg);
@@ -953,7 +1084,7 @@ pub fn main(args: &util::Args) {
         // how many holes does the form have at depth 0
         let holes = {
             let mut r = Rng::new(args.seed).fork((f * 1000 + rep) as u64);
-            gen_case(&mut r, f, 0, vec![], Eff::None, Place::LetThenShow).holes
+            gen_case(&mut r, f, 0, vec![], Eff::None, Place::LetThenShow, Wrap::None).holes
         };
         let mut variants: Vec<(String, Vec<Eff>, Eff)> = vec![
             ("print".into(), vec![], Eff::Print),
@@ -975,9 +1106,63 @@ pub fn main(args: &util::Args) {
                 // the same value choices for every variant of a form (only the effects differ)
                 let mut r = Rng::new(args.seed).fork((f * 1000 + rep) as u64);
                 let place = places[(vi + rep + f) % 3];
-                let case = gen_case(&mut r, f, 0, plan.clone(), *base, place);
+                let case = gen_case(&mut r, f, 0, plan.clone(), *base, place, Wrap::None);
                 let id = format!("eff:{}:{}:{}:{}:{:?}", args.seed, form_name(f), rep, tag, place);
                 emit(&id, &case, &dir, &mut out, &mut stats);
+            }
+        }
+    }
+    // ---- (3b) operands of binary / logical operators inside nearly-trivial wrapper shapes:
+    // `lhs && mk(..).f`, `a < (eff(), 0).0`, `l || array_get(arr(eff()), 0)`, … with the left operand
+    // deciding and not deciding (forms and-true/and-false/or-true/or-false and the random ones)
+    let logical: [usize; 8] = [26, 27, 28, 29, 30, 31, 32, 34];
+    let other_bin: [usize; 7] = [1, 2, 3, 4, 25, 33, 35];
+    for (wi, w) in WRAPS.iter().enumerate() {
+        for (fi, f) in logical.iter().chain(other_bin.iter()).enumerate() {
+            let f = *f;
+            let is_logical = fi < logical.len();
+            let reps = if thorough { 3 } else { 1 };
+            for rep in 0..reps {
+                let stream = 0x7000_0000u64 + (f * 1000 + wi * 10 + rep) as u64;
+                let probe = {
+                    let mut r = Rng::new(args.seed).fork(stream);
+                    gen_case(&mut r, f, 0, vec![], Eff::None, Place::LetThenShow, *w)
+                };
+                if probe.wrapped == 0 {
+                    continue; // the shape does not apply to any operand type of this form
+                }
+                let holes = probe.holes;
+                let kinds = [Eff::FailDiv, Eff::FailIdx, Eff::FailCall];
+                let mut variants: Vec<(String, Vec<Eff>, Eff)> = vec![("print".into(), vec![], Eff::Print)];
+                if is_logical || thorough {
+                    variants.push(("ref".into(), vec![], Eff::RefUpd));
+                }
+                if thorough {
+                    variants.push(("printblock".into(), vec![], Eff::PrintBlock));
+                }
+                for h in 0..holes {
+                    for (ki, e) in kinds.iter().enumerate() {
+                        let chosen = if thorough {
+                            true
+                        } else if is_logical {
+                            ki == (h + wi + f) % 3
+                        } else {
+                            h == (wi + rep) % holes && ki == (wi + f) % 3
+                        };
+                        if chosen {
+                            let mut plan = vec![Eff::Print; holes];
+                            plan[h] = *e;
+                            variants.push((format!("{}@{}", eff_tag(*e), h), plan, Eff::Print));
+                        }
+                    }
+                }
+                for (vi, (tag, plan, base)) in variants.iter().enumerate() {
+                    let mut r = Rng::new(args.seed).fork(stream);
+                    let place = places[(vi + wi + f) % 3];
+                    let case = gen_case(&mut r, f, 0, plan.clone(), *base, place, *w);
+                    let id = format!("wrap:{}:{}:{:?}:{}:{}:{:?}", args.seed, form_name(f), w, rep, tag, place);
+                    emit(&id, &case, &dir, &mut out, &mut stats);
+                }
             }
         }
     }
@@ -996,8 +1181,10 @@ pub fn main(args: &util::Args) {
             plan.push([Eff::FailDiv, Eff::FailIdx, Eff::FailCall][r.below(3)]);
         }
         let place = places[r.below(3)];
-        let case = gen_case(&mut r, f, depth, plan, base, place);
-        let id = format!("nest:{}:{}:{}:d{}:{:?}", args.seed, i, form_name(f), depth, place);
+        // every third composition also wraps its holes in one of the nearly-trivial shapes
+        let wrap = if i % 3 == 2 { WRAPS[r.below(WRAPS.len())] } else { Wrap::None };
+        let case = gen_case(&mut r, f, depth, plan, base, place, wrap);
+        let id = format!("nest:{}:{}:{}:d{}:{:?}:{:?}", args.seed, i, form_name(f), depth, place, wrap);
         emit(&id, &case, &dir, &mut out, &mut stats);
     }
     writeln!(out, "#FEATS\tgenerated={} accepted={}", stats.generated, stats.accepted).unwrap();
